@@ -60,10 +60,9 @@ theorem freshDocB_sound (F : List (Item Str)) (h : freshDocB F = true) :
   have := h.1 it hit
   cases it with
   | text l =>
-    simp only [Item.freshOKB, Bool.and_eq_true, Bool.not_eq_true', List.contains_eq_mem,
-      decide_eq_false_iff_not] at this
+    simp only [Item.freshOKB, Bool.not_eq_true'] at this
     simp only [Item.freshOK, strCfg]
-    exact ⟨this.1, this.2⟩
+    exact this
   | block o cl b =>
     simp only [Item.freshOKB, Bool.and_eq_true, List.isEmpty_iff, beq_iff_eq] at this
     obtain ⟨⟨⟨⟨⟨h1, h2⟩, h3⟩, h4⟩, h5⟩, h6⟩ := this
